@@ -244,10 +244,10 @@ check("C12",
       "origins, locus symmetry and complete linkage, and emits the joint-origin tables. With these tables TLC validates, in "
       "exact rationals, every sampled entry (all parent index tuples incl. repeated parents, identical parents) of the real "
       "two-/three-/four-way genetic and genic variance matrices, the two-/three-/four-way genetic covariance matrices "
-      "(between traits), for chunk sizes 1/2/None/1024, selfing depths 0..3 and infinite (two-way), 1-3 chromosomes with tied "
+      "(between traits), the dihybrid genetic and genic variance matrices (heterozygous parents: the four haplotypes are the origins of the four-way tables), for chunk sizes 1/2/None/1024, selfing depths 0..3 and infinite (two-way), 1-3 chromosomes with tied "
       "and linked markers, and the usefulness-criterion values ((UC - parental mean)^2 / i^2 must equal the variance).",
       "Inbred parents; Haldane positions chosen so that all pairwise recombination fractions are multiples of 1/8; infinite "
-      "selfing uses the closed limit of the TLC-verified recurrence; dihybrid classes and the (abstract, non-instantiable) genic "
+      "selfing uses the closed limit of the TLC-verified recurrence; the (abstract, non-instantiable) genic "
       "covariance classes are not covered; observed entries converted with Fraction.limit_denominator(2e5).",
       "TLA+ spec (ProgenyVar.tla) generation-by-generation enumeration by TLC, tables fed back into a TLC trace validation of recorded matrix entries",
       "DESIGN.md C12")
